@@ -17,7 +17,7 @@ RULE = ('exhaustive N<=3: every non-identity string x sign x target qubit x caus
         'checked by applying the returned rotations with the reference rule; non-trivial = operator of weight >= 2 not already Z_i0, Hamiltonian with '
         '>= 3 terms; distinct = sha1 of the case')
 ASSUMPTIONS = ['causal mode needs an operator that is non-trivial on qubits >= i0 (what SBRG guarantees)',
-               'SBRG input is a reduced Hermitian polynomial without identity term (callers strip it; an identity leading term is outside the domain)']
+               'SBRG input is a reduced Hermitian PauliPolynomial (identity terms allowed)']
 
 
 def _check_diag(letters, k, i0, causal, what, be='np'):
@@ -149,7 +149,7 @@ def f_sbrg_commuting(case):
     seen = set(); terms = []
     for sel, coef in zip(case['sels'], case['coefs']):
         key = tuple(sel)
-        if not any(sel) or key in seen or coef == 0:
+        if key in seen or coef == 0:      # an all-False selection is the identity (constant) term: allowed
             continue
         seen.add(key)
         l, k = c.apply(np.array([3 if b else 0 for b in sel], dtype=np.int64), 0)
@@ -196,8 +196,6 @@ def f_sbrg_general(case):
     merged = {}
     for p, coef in case['terms']:
         s = p.lstrip('+-')
-        if all(ch == 'I' for ch in s):
-            continue
         merged[s] = merged.get(s, 0) + coef * (-1 if p.startswith('-') else 1)
     terms = [('+' + s, v) for s, v in merged.items() if v != 0]
     if not terms:
